@@ -1,0 +1,38 @@
+//go:build verif
+
+package channelmonitor
+
+// This file is only compiled with the `verif` build tag. It exposes internals
+// to the external verification harness; it does not change behaviour.
+
+// VerifMonitoredChannel is the per-channel monitor returned by AddPushChannel / AddPullChannel
+type VerifMonitoredChannel = monitoredChannel
+
+// VerifState is the restart bookkeeping of a monitored channel
+type VerifState struct {
+	Restarting          bool // restartedAt is set
+	RestartQueued       bool
+	ConsecutiveRestarts int
+	Shutdown            bool // cancel == nil
+}
+
+// VerifState reads the restart bookkeeping
+func (mc *monitoredChannel) VerifState() VerifState {
+	mc.restartLk.RLock()
+	s := VerifState{Restarting: !mc.restartedAt.IsZero(), RestartQueued: mc.restartQueued, ConsecutiveRestarts: mc.consecutiveRestarts}
+	mc.restartLk.RUnlock()
+	mc.shutdownLk.Lock()
+	s.Shutdown = mc.cancel == nil
+	mc.shutdownLk.Unlock()
+	return s
+}
+
+// VerifRestartChannel calls restartChannel directly (without the debouncer)
+func (mc *monitoredChannel) VerifRestartChannel() { mc.restartChannel() }
+
+// VerifTracked reports whether the monitor still tracks the channel with this monitoredChannel
+func (m *Monitor) VerifTracked(mc *monitoredChannel) bool {
+	m.lk.RLock()
+	defer m.lk.RUnlock()
+	return m.channels[mc.chid] == mc
+}
